@@ -353,6 +353,28 @@ def base_catalogue():
                                   F("n", "crate::v::DStr"), F("l", "Vec<crate::v::DStr>")],
                      [("rem", "x"), ("add", "n", "crate::v::DStr(\"x\".to_string())"), ("tra", "gone"), ("rem", "x")]))
     decls.append(Rec("DedupNest", [F("h", "crate::v::DStr"), F("r", "DedupR2"), F("m", "DedupMix"), F("t", "crate::v::DStr")]))
+    # the types of the repository's golden test (data written by Scala desert), mirrored: same attributes, same field order;
+    # `StackTraceElement` has a hand-written codec there (0, three Option<String>, var-u32) = a headerless record of these fields
+    decls.append(Rec("GListElement1", [F("id", "String")]))
+    decls.append(Enum("GListElement2", [
+        Variant("First", "struct", Rec("First", [F("elem", "GListElement1")])),
+        Variant("Second", "struct", Rec("Second", [F("uuid", "uuid::Uuid"), F("desc", "Option<String>", "optional", None, "String"),
+                                                   F("_cached", "Option<String>", "transient", "None")], [("tra", "cached")])),
+        Variant("Third", "struct", Rec("Third", [F("_file", "String")]), True)], True))
+    decls.append(Rec("GStackTraceElement", [F("class_name", "Option<String>", "optional", None, "String"),
+                                            F("method_name", "Option<String>", "optional", None, "String"),
+                                            F("file_name", "Option<String>", "optional", None, "String"),
+                                            F("line_number", "crate::v::VarU32")]))
+    decls.append(Rec("GThrowable", [F("class_name", "String"), F("message", "String"), F("stack_trace", "Vec<GStackTraceElement>"),
+                                    F("cause", "Option<Box<GThrowable>>", "optional", None, "Box<GThrowable>")]))
+    decls.append(Rec("GTestModel1", [
+        F("byte", "i8"), F("short", "i16"), F("int", "i32"), F("long", "i64"), F("float", "f32"), F("double", "f64"),
+        F("boolean", "bool"), F("unit", "()"), F("string", "String"), F("uuid", "uuid::Uuid"), F("exception", "GThrowable"),
+        F("list", "Vec<GListElement1>"), F("array", "Vec<i64>"), F("vector", "Vec<GListElement1>"),
+        F("set", "std::collections::HashSet<String>"), F("either", "Result<bool, String>"),
+        F("tried", "Result<GListElement2, GThrowable>"),
+        F("option", "Option<std::collections::HashMap<String, GListElement2>>", "optional", None, "std::collections::HashMap<String, GListElement2>")],
+        [("opt", "option"), ("add", "string", "\"default string\".to_string()"), ("add", "set", "std::collections::HashSet::new()")]))
     # enums
     decls.append(Enum("UnitEnum", [Variant("A", "unit", Rec("A", [])), Variant("B", "unit", Rec("B", [])), Variant("C", "unit", Rec("C", []))]))
     decls.append(Enum("SortedEnum", [Variant("Zeta", "unit", Rec("Zeta", [])), Variant("Alpha", "tuple", Rec("Alpha", [F("field0", "u8")])),
